@@ -17,7 +17,7 @@ CONSTANTS Fuel, Uni, Args
 
 UniA == <<0, 10, 20>>
 UniB == <<1, 10, 65529>>
-ArgsQuick == {<<10, 0, 10, "">>, <<100, 0, 10, "100">>, <<100, 0, 100, "100,,100">>, <<1, 10, 1, "1,10,1">>, <<5, 5, 0, "5,5,0">>, <<20, 10, 10, "20,10">>, <<65529, 0, 10, "65529">>, <<65520, 0, 5, "65520,,5">>, <<0, 0, 1, "0,,1">>, <<10, 20, 10, ",20">>, <<30, 20, 65529, "30,20,65529">>, <<10, 0, 0, "10,,0">>, <<65529, 20, 1, "65529,20,1">>, <<15, 10, 10, "15,10">>, <<1000, 0, 1000, "1000,0,1000">>}
+ArgsQuick == {<<10, 0, 5, "10,,5">>, <<10, 0, 10, "">>, <<100, 0, 10, "100">>, <<100, 0, 100, "100,,100">>, <<1, 10, 1, "1,10,1">>, <<5, 5, 0, "5,5,0">>, <<20, 10, 10, "20,10">>, <<65529, 0, 10, "65529">>, <<65520, 0, 5, "65520,,5">>, <<0, 0, 1, "0,,1">>, <<10, 20, 10, ",20">>, <<30, 20, 65529, "30,20,65529">>, <<10, 0, 0, "10,,0">>, <<65529, 20, 1, "65529,20,1">>, <<15, 10, 10, "15,10">>, <<1000, 0, 1000, "1000,0,1000">>}
 ArgsThorough == {<<10, 0, 10, "">>,
                  <<10, 0, 0, ",,0">>,
                  <<10, 0, 1, ",,1">>,
@@ -195,13 +195,16 @@ Templates ==
     <<Never(<<Rng("delete", L(1), L(3), "range"), Never(<<Rng("delete", 5, 7, "range")>>)>>)>>,
 
     <<SLet(A, LI(10)), PS(<<49, 48>>), SGoto(L(3))>>,
+    <<SLet(A, Bin("add", A, LI(1))), SPrint(<<PE(Bin("idiv", LI(8), Par(Bin("sub", A, LI(1)))))>>), SGoto(L(3))>>,   \* fails the first time through
     <<SRem>> }
 Last == <<PS(<<76>>), SData(<<MkI(4)>>), SIf(Bin("gt", A, LI(5)), <<SEnd>>, <<SReturn>>)>>
 
 Listing(p) == << CLine(L(1), p[1]), CLine(L(2), p[2]), CLine(L(3), Last) >>
 Renum(a) == [k |-> "renum", new |-> a[1], old |-> a[2], step |-> a[3], args |-> a[4]]
 ListAll == CDirect(<<Rng("list", 0, 65529, "all")>>)
-Cmds(p, a) == Listing(p) \o <<CDirect(<<Renum(a)>>), ListAll, CDirect(<<SRun(-1)>>)>>
+\* after RENUM: LIST, RUN, and a direct jump to the (possibly new) number of the last line
+NewL3(a) == LET r == RenumMap({L(1), L(2), L(3)}, a[1], a[2], a[3]) IN IF r.ok /\ r.f[L(3)] <= 65529 THEN r.f[L(3)] ELSE L(3)
+Cmds(p, a) == Listing(p) \o <<CDirect(<<Renum(a)>>), ListAll, CDirect(<<SRun(-1)>>), CDirect(<<SGoto(NewL3(a))>>)>>
 
 RECURSIVE Feed(_, _, _)
 Feed(mm, cs, i) == IF i > Len(cs) THEN mm ELSE Feed(Do(mm, cs[i], Fuel), cs, i + 1)
